@@ -311,7 +311,8 @@ pub fn feature_mix_program(rng: &mut Rng) -> Vec<u8> {
     let nblocks = rng.range(2, 7);
     let mut used: Vec<usize> = Vec::new();
     for i in 0..nblocks {
-        let kind = rng.below(18);
+        // (block 16, addresses beyond 16 bits, a little more often)
+        let kind = if rng.chance(1, 12) { 16 } else { rng.below(18) };
         used.push(kind);
         match kind {
             0 => {
